@@ -1096,8 +1096,9 @@ def model_lines(spec, nw, picks):
 
 def canon_ops(ops):
     """real side -> the model's vocabulary: a message sent to a worker carries no origin (the model's WMsg has none); a pick
-    in which the worker process dies is compared by its recv and the cause only (the order in which a Python set of
-    datasets is provided is not modelled, so the reads before the failing one are not compared)"""
+    in which the worker process dies is compared without its reads (`get`): the order in which a Python set of datasets is
+    provided is not modelled, so WHICH reads precede the failing one is not comparable; everything else the process did in
+    that pick before it died (what it received, published, sent, executed) and the cause of death are compared"""
     out = []
     for o in ops:
         o = list(o)
@@ -1107,7 +1108,7 @@ def canon_ops(ops):
             o[2] = m
         out.append(o)
     if any(o[0] == "died" for o in out):
-        out = [o for o in out if o[0] in ("recv", "died")]
+        out = [o for o in out if not o[0].startswith("get")]      # "get" and the failing read "get-miss" (the model emits only the death)
     return out
 
 
@@ -1144,7 +1145,7 @@ def compare(picks, trace, model_out):
             real_ops = [[o[0], {k: v for k, v in o[1].items() if k != "from"}] if o[0] == "recv" else o for o in real_ops]
         model_ops = mo["ops"]
         if any(o[0] == "died" for o in model_ops):
-            model_ops = [o for o in model_ops if o[0] in ("recv", "died")]
+            model_ops = [o for o in model_ops if not o[0].startswith("get")]
         if p[0] == "w" and not any(o[0] == "exec" for o in real_ops):
             # memory.provide over `availab_ds.intersection(required)` of the wait loop: a Python set, its order is not modelled
             real_ops = _sort_gets(real_ops)
@@ -1310,8 +1311,9 @@ def correspond(ctx):
 
 # ----------------------------------------------------------------------------- GPU facts of the layer
 
-def real_registration(nw, gpus):
-    """the REAL Executor.__init__ (no sockets, no processes): [(worker_num, gpu flag)] of its ExecutorRegistration"""
+def real_registration(nw, gpus, host=None, full=False):
+    """the REAL Executor.__init__ (no sockets, no processes): [(worker_num, gpu flag)] of its ExecutorRegistration
+    (`full`: the ExecutorRegistration message itself, as the executor would send it to the controller)"""
     import cascade.executor.executor as xmod
     from cascade.low.core import JobInstance
 
@@ -1344,7 +1346,9 @@ def real_registration(nw, gpus):
     xmod.shm_api = types.SimpleNamespace(publish_client_port=lambda p: None)
     try:
         os.environ["CASCADE_GPU_COUNT"] = str(gpus)
-        x = xmod.Executor(JobInstance(tasks={}, edges=[]), "ctrl", nw, _HOST, 12345, None)
+        x = xmod.Executor(JobInstance(tasks={}, edges=[]), "ctrl", nw, host or _HOST, 12345, None)
+        if full:
+            return x.registration
         return [[w.worker_id.worker_num(), int(w.gpu)] for w in x.registration.workers], [repr(w) for w in x.workers]
     finally:
         xmod.Listener, xmod.ReliableSender, xmod.get_context, xmod.atexit, xmod.shm_api = saved
@@ -1424,7 +1428,15 @@ def gpu_host_case(nw, gpus):
     """one host: what the real code registers and what each of its workers sees"""
     reg, names = real_registration(nw, gpus)
     sees = [parse_cuda(real_cuda_env(nm.split(".", 1)[1])) for nm in names]
-    return {"nw": nw, "gpus": gpus, "reg": reg, "sees": sees}
+    # ... and what the CONTROLLER believes about these workers: the Environment the REAL Bridge.__init__ builds when this
+    # host's registration message reaches it (the scheduler's gpu partition reads nothing else)
+    from ekw import ctrl_bridge
+    try:
+        env, _ = ctrl_bridge.real_bridge_init([[real_registration(nw, gpus, full=True)]])
+        ctl = sorted([w.worker_num(), int(v.gpu)] for w, v in env.workers.items())
+    except Exception as e:
+        ctl = ["Bridge.__init__ raised: " + repr(e)[:120]]
+    return {"nw": nw, "gpus": gpus, "reg": reg, "sees": sees, "ctl": ctl}
 
 
 def gpu_oracle(c):
@@ -1437,6 +1449,23 @@ def gpu_oracle(c):
         if g and len(real) != 1:
             out.append(({"kind": "gpu-worker-does-not-see-exactly-one-device"},
                         f"host with {c['nw']} workers, CASCADE_GPU_COUNT={gpus}: worker w{num} is registered with gpu=1 but sees the devices {sees}"))
+    # the controller's belief (Environment built by Bridge.__init__) against what the worker process really has
+    ctl = c.get("ctl")
+    if ctl is not None:
+        have = {num: len([d for d in sees if d < gpus]) == 1 for (num, _), sees in zip(c["reg"], c["sees"])}
+        if any(not isinstance(x, list) for x in ctl):
+            out.append(({"kind": "controller-environment-not-built"}, f"host with {c['nw']} workers, CASCADE_GPU_COUNT={gpus}: {ctl}"))
+        else:
+            bel = {num: g for num, g in ctl}
+            if sorted(bel) != sorted(have):
+                out.append(({"kind": "controller-environment-worker-set"},
+                            f"host with {c['nw']} workers: the controller's Environment lists the workers {sorted(bel)}, the executor has {sorted(have)}"))
+            for num in sorted(have):
+                if num in bel and bool(bel[num]) != have[num]:
+                    out.append(({"kind": "controller-believes-gpu-wrongly"},
+                                f"host with {c['nw']} workers, CASCADE_GPU_COUNT={gpus}: after the real Bridge.__init__ received the executor's registration the "
+                                f"controller's Environment says gpu={bel[num]} for w{num}, but that worker " + ("has" if have[num] else "has NO") + " device of its own"))
+                    break
     owner = {}
     for (num, g), sees in zip(c["reg"], c["sees"]):
         for d in sees:
@@ -1451,7 +1480,7 @@ def gpu_oracle(c):
 def correspond_gpu(ctx):
     import json
     from ekw.core import lean_drive
-    hosts = [(1, 0), (2, 1), (4, 4), (10, 10), (13, 13), (24, 16)]
+    hosts = [(1, 0), (2, 1), (4, 4), (10, 10), (13, 13), (24, 16), (101, 101), (ctx.rng.randint(41, 130), ctx.rng.randint(30, 131))]
     for _ in range(ctx.budget(4, 40)):
         nw = ctx.rng.randint(1, 40)
         hosts.append((nw, ctx.rng.randint(0, nw + 2)))
@@ -1472,6 +1501,9 @@ def correspond_gpu(ctx):
         ctx.traces += 1
         if mo.get("reg") != c["reg"] or mo.get("sees") != c["sees"]:
             ctx.disagree("executor-layer-gpu", {"gpu_host": {"nw": c["nw"], "gpus": c["gpus"]}}, mo, {"reg": c["reg"], "sees": c["sees"]})
+        elif mo.get("reg") != c["ctl"]:
+            # the model's `regGpu` is also what the controller's Environment must say (Cluster.hasGpu of Model/Ctrl.lean)
+            ctx.disagree("controller-environment-gpu", {"gpu_host": {"nw": c["nw"], "gpus": c["gpus"]}}, mo.get("reg"), {"Environment": c["ctl"]})
         for sig, what in gpu_oracle(c):
             if sig["kind"] in seen:
                 continue
